@@ -35,6 +35,9 @@ pub struct Rec {
     pub align: usize,
     pub live: bool,
     pub frees: u32,
+    /// guard mode: the private mapping the block lives in (0: a block from the system allocator)
+    pub map: usize,
+    pub maplen: usize,
 }
 
 const TCAP: usize = 1 << 14;
@@ -47,10 +50,32 @@ unsafe impl Sync for Table {}
 
 static TABLE: Table = Table {
     n: AtomicUsize::new(0),
-    recs: UnsafeCell::new([Rec { addr: 0, size: 0, align: 0, live: false, frees: 0 }; TCAP]),
+    recs: UnsafeCell::new([Rec { addr: 0, size: 0, align: 0, live: false, frees: 0, map: 0, maplen: 0 }; TCAP]),
 };
 
 pub static TRACKING: AtomicBool = AtomicBool::new(false);
+/// guard mode: every tracked block gets a mapping of its own, ends right before an inaccessible page, and the whole
+/// mapping becomes inaccessible when the block is released: any later access, and any access past the red zone,
+/// ends the process with SIGSEGV instead of going unnoticed
+pub static GUARD: AtomicBool = AtomicBool::new(false);
+const PAGE: usize = 4096;
+extern "C" {
+    fn mmap(addr: *mut u8, len: usize, prot: i32, flags: i32, fd: i32, off: i64) -> *mut u8;
+    fn munmap(addr: *mut u8, len: usize) -> i32;
+    fn mprotect(addr: *mut u8, len: usize, prot: i32) -> i32;
+}
+unsafe fn guard_alloc(size: usize, align: usize) -> (*mut u8, usize, usize) {
+    let need = size + REDZONE;
+    let span = (need + align.max(16) + PAGE - 1) / PAGE * PAGE;
+    // PROT_READ | PROT_WRITE = 3, MAP_PRIVATE | MAP_ANONYMOUS = 0x22
+    let map = mmap(std::ptr::null_mut(), span + PAGE, 3, 0x22, -1, 0);
+    if map as isize == -1 {
+        return (std::ptr::null_mut(), 0, 0);
+    }
+    mprotect(map.add(span), PAGE, 0);
+    let p = ((map as usize + span - need) / align) * align;
+    (p as *mut u8, map as usize, span + PAGE)
+}
 /// > 0: the allocation that brings this to 0 fails (returns null)
 pub static FAIL_AT: AtomicIsize = AtomicIsize::new(0);
 /// refuse (return null for) tracked requests larger than this, so that an accidental huge
@@ -78,14 +103,18 @@ unsafe impl GlobalAlloc for TrackAlloc {
             LOG.unlock();
             return std::ptr::null_mut();
         }
-        let p = System.alloc(real_layout(layout.size(), layout.align()));
+        let (p, map, maplen) = if GUARD.load(Ordering::Relaxed) {
+            guard_alloc(layout.size(), layout.align())
+        } else {
+            (System.alloc(real_layout(layout.size(), layout.align())), 0, 0)
+        };
         if !p.is_null() {
             std::ptr::write_bytes(p, POISON_FRESH, layout.size());
             std::ptr::write_bytes(p.add(layout.size()), RED, REDZONE);
             let n = TABLE.n.load(Ordering::Relaxed);
             if n < TCAP {
                 (*TABLE.recs.get())[n] =
-                    Rec { addr: p as usize, size: layout.size(), align: layout.align(), live: true, frees: 0 };
+                    Rec { addr: p as usize, size: layout.size(), align: layout.align(), live: true, frees: 0, map, maplen };
                 TABLE.n.store(n + 1, Ordering::Relaxed);
             } else {
                 LOG.overflow.store(true, Ordering::Relaxed);
@@ -132,7 +161,11 @@ unsafe impl GlobalAlloc for TrackAlloc {
                 }
                 if r.live {
                     recs[i].live = false;
-                    std::ptr::write_bytes(ptr, POISON_FREED, r.size);
+                    if r.map != 0 {
+                        mprotect(r.map as *mut u8, r.maplen, 0);
+                    } else {
+                        std::ptr::write_bytes(ptr, POISON_FREED, r.size);
+                    }
                 }
                 LOG.push_locked(Ev::Dealloc {
                     addr: ptr as usize,
@@ -208,13 +241,18 @@ pub fn reset() {
     let recs = unsafe { &*TABLE.recs.get() };
     for r in recs.iter().take(n) {
         unsafe {
-            System.dealloc(r.addr as *mut u8, real_layout(r.size, r.align));
+            if r.map != 0 {
+                munmap(r.map as *mut u8, r.maplen);
+            } else {
+                System.dealloc(r.addr as *mut u8, real_layout(r.size, r.align));
+            }
         }
     }
     TABLE.n.store(0, Ordering::Relaxed);
     LOG.unlock();
     FAIL_AT.store(0, Ordering::SeqCst);
     OVERRUNS.store(0, Ordering::SeqCst);
+    GUARD.store(false, Ordering::SeqCst);
 }
 
 pub fn track(on: bool) {
